@@ -20,7 +20,8 @@ for sid in ids:
     shutil.rmtree(scr, ignore_errors=True)
     os.makedirs(scr)
     subprocess.check_call(['rsync', '-a', '--exclude', '.git', '--exclude', 'tests', '--exclude', 'sphinx', '/repo/', scr + '/'])
-    r = subprocess.run('patch -s -p1 < %s/patch.diff' % d, shell=True, cwd=scr)
+    pf = 'patch.rebased.diff' if os.path.exists(d + '/patch.rebased.diff') else 'patch.diff'
+    r = subprocess.run('patch -s -p1 < %s/%s' % (d, pf), shell=True, cwd=scr)
     if r.returncode:
         print(sid, 'PATCH DOES NOT APPLY'); shutil.rmtree(scr); continue
     old = {c.split()[0]: c for c in meta.get('checks_run_against_it', [])}
